@@ -7,7 +7,7 @@ from props import c02, c12, c17, c18
 
 ID = "C16"
 LEVEL = "proof"
-THEOREMS = ["C16_pil_lines_match_objects_partial"]
+THEOREMS = ["C16_pil_lines_match_objects_partial", "C16_system_lines_match_objects_partial"]
 TRUSTED = c02.TRUSTED + ["harness/hist_worker.py: captures the in-memory system by wrapping compiler.save (no source hook), dumps canonical object graphs, reloads in a second fresh interpreter"]
 ASSUMPTIONS = ["object graphs are compared up to identity classes (not addresses); dict ordering of the tables is part of the dump"]
 
@@ -47,7 +47,7 @@ def run(tier, seed, build):
     forced_port_struct = False
     try:
         for ti in range(n):
-            ladder = (ti == 1)
+            ladder = (ti == 1); forced_now = False
             if ladder:      # once per run: a large component whose strands form a long chain through shared domains
                 prog = ladder_program(400 if tier == "quick" else 1500)
                 target = {"files": {"prog.comp": pepper.comp_text(random.Random(ti), prog)}, "includes": [], "base": "prog", "args": [], "_prog": prog}
@@ -60,11 +60,14 @@ def run(tier, seed, build):
                 target = {"files": {"prog.comp": pepper.comp_text(rng, prog)}, "includes": [], "base": "prog", "args": [], "_prog": prog}
             else:
                 target = c02.gen_case(rng)
-                if not forced_port_struct:       # once per run: a system in which some component input port carries a structure
-                    for _ in range(400):
-                        if port_struct(target): break
+                if not forced_port_struct:       # once per run: an acceptable system in which some component input port carries a structure
+                    def acceptable(t):
+                        try: return pepper.expected_system_den(t["_gen"], t["_top"], t["args"], 0)[0] is not None
+                        except (ValueError, KeyError, ZeroDivisionError, TypeError): return False
+                    for _ in range(600):
+                        if port_struct(target) and acceptable(target): break
                         target = c02.gen_case(rng)
-                    forced_port_struct = True
+                    forced_port_struct = True; forced_now = True
             root = os.path.join(wd, "t%d" % ti); c18.write_project(root, target["files"])
             try:
                 if "_prog" in target:
@@ -74,7 +77,7 @@ def run(tier, seed, build):
             except (ValueError, KeyError, ZeroDivisionError, TypeError):
                 den = None
             fixed = None
-            if den is not None and rng.random() < 0.5 and not ladder:      # (the ladder must compile: no fixed file, whose entries may be wrong on purpose)
+            if den is not None and rng.random() < 0.5 and not ladder and not forced_now:      # (the ladder must compile: no fixed file, whose entries may be wrong on purpose)
                 ents = [e for e in c12.gen_fixed(rng, den) if "_Anon" not in e[1]]
                 open(os.path.join(root, "fix.fixed"), "w").write(c12.fixed_text(rng, ents)); fixed = "fix.fixed"; dist["with_fixed"] += 1
             if "[dummy]" in "".join(target["files"].values()): dist["with_dummy_strand"] += 1
